@@ -78,6 +78,31 @@ def error_exit(b, bb, depth=0, seen=None):
     return True if (is_err or any(r is True for r in res)) else None
 
 
+def next_reader_block(b, start, limit=40):
+    """the one block that every read-free success path from `start` reaches first among the blocks that call the reader (or build the
+    result); None when the paths disagree, loop, or return without reading"""
+    found = set()
+    seen = set()
+    st = [start]
+    while st:
+        n = st.pop()
+        if n in seen:
+            continue
+        seen.add(n)
+        if len(seen) > limit:
+            return None
+        t = b.term(n)
+        if t["k"] == "call" and "binary::read::Read" in (t["callee"].get("path") or ""):
+            found.add(n)
+            continue
+        if t["k"] == "return":
+            return None
+        if error_exit(b, n) is True:
+            continue
+        st.extend(x for x in b.succs(n) if b.term(x)["k"] != "unreachable")
+    return found.pop() if len(found) == 1 else None
+
+
 def mainline(b, start=0, through_checks=False):
     """blocks along the success path: follows goto/call/assert/drop targets and the Continue arm of
     every `?`. Stops at any other switch - unless through_checks is set and all arms but one are error exits (a version or
@@ -118,6 +143,13 @@ def mainline(b, start=0, through_checks=False):
                 if len(live) == 1 and len(tgts) > 1:
                     bb = live[0]
                     continue
+                # a validity test spelled as a chain (`a == X || a == Y || ..`, a flag set in several arms): the live arms read nothing
+                # and meet again in one block, from which the walk goes on
+                if len(live) > 1:
+                    nxt = {next_reader_block(b, tg) for tg in live}
+                    if len(nxt) == 1 and None not in nxt:
+                        bb = nxt.pop()
+                        continue
             return out, "branch at bb%d (%s:%s)" % (bb, b.file, t.get("line", "?"))
         return out, k
 
@@ -391,7 +423,11 @@ def compare(ritems, rwhy, witems, wwhy):
     if complete and len(ritems) != len(witems) and not diffs:
         longer = "reader" if len(ritems) > len(witems) else "writer"
         extra = (ritems if longer == "reader" else witems)[n:]
-        diffs.append((n, "%s has %d more item(s) than the other side: %s" % (longer, len(extra), [x.show() for x in extra][:4])))
+        # bytes the reader skips without keeping them (reserved / unknown header bytes whose length is data) have no counterpart in the
+        # writer, which emits the minimal form
+        skipped_only = longer == "reader" and all(x.kind == "bytes" and not x.field for x in extra)
+        if not skipped_only:
+            diffs.append((n, "%s has %d more item(s) than the other side: %s" % (longer, len(extra), [x.show() for x in extra][:4])))
     return diffs, n, complete
 
 
